@@ -1158,12 +1158,23 @@ def block_contents(ctx, table):
             for lf in lv:
                 cons0 = [L(0, bn), L(0, cn)]
                 okc = True
+                later = []
                 for c in lf.pc:
                     cc = lin.cond_constraints(c)
-                    if cc is None or len(cc) != 1:
-                        okc = False
-                        break
+                    if cc is None:
+                        okc = False      # not linear (e.g. on the remainder): go on without it
+                        continue
+                    if len(cc) != 1:
+                        later.append(cc)
+                        continue
                     cons0 += cc[0]
+                for cc in later:
+                    # a disequality: keep the side that is possible at all (n != 0 with n >= 0 is n >= 1)
+                    feas = [a_ for a_ in cc if not fm.unsat(cons0 + a_)]
+                    if len(feas) == 1:
+                        cons0 += feas[0]
+                    else:
+                        okc = False
                 if not okc:
                     # a path condition that is not linear (e.g. on the remainder): keep going without it
                     pass
